@@ -716,7 +716,67 @@ def list_refinement_rule(ctx: Ctx, rid: str) -> int:
     return n
 
 
+def rule_r8(ctx: Ctx) -> None:
+    """Refinements are the metadata of Annotated[...] types, and the typing runtime merges Annotated types whose arguments are
+    equal (and hash alike).  Two refinements that differ in a parameter must therefore not compare equal: either refinements keep
+    identity semantics, or their __eq__ / __hash__ take every parameter stored by the constructor into account."""
+    prog = ctx.prog
+    n = 0
+    for c in sorted(prog.subclasses(METAHANDLER), key=lambda x: x.fullname):
+        if c.fullname == METAHANDLER:
+            continue
+        init = prog.lookup_method(c, "__init__")
+        stored = set()
+        if init is not None:
+            stored = {a.targets[0].attr for a in walk_local(init.node) if isinstance(a, ast.Assign) and isinstance(a.targets[0], ast.Attribute)
+                      and isinstance(a.targets[0].value, ast.Name) and a.targets[0].value.id == "self"}
+        n += 1
+        construct = f"{c.name}: refinements that differ in a constructor parameter are different Annotated metadata"
+        eq = prog.lookup_method(c, "__eq__")
+        hs = prog.lookup_method(c, "__hash__")
+        if eq is None and hs is None:
+            ctx.ob("C02.R8", None, None, construct, True, "identity semantics (no __eq__ / __hash__ in the hierarchy)", module=c.module.relpath)
+            continue
+        verdict: Optional[bool] = True
+        why = ""
+        for m in [x for x in (eq, hs) if x is not None]:
+            texts = [norm(x) for x in ast.walk(m.node)]
+            via_text = any(isinstance(x, ast.Call) and call_name(x) in ("repr", "str") for x in ast.walk(m.node)) \
+                or any(isinstance(x, ast.Attribute) and x.attr in ("__repr__", "__str__") for x in ast.walk(m.node))
+            via_dict = any(isinstance(x, ast.Attribute) and x.attr == "__dict__" for x in ast.walk(m.node)) \
+                or any(isinstance(x, ast.Call) and call_name(x) == "vars" for x in ast.walk(m.node))
+            if via_dict:
+                continue
+            if via_text:
+                rp = prog.lookup_method(c, "__repr__") or prog.lookup_method(c, "__str__")
+                shown = set()
+                if rp is not None:
+                    shown = {x.attr for x in ast.walk(rp.node) if isinstance(x, ast.Attribute) and isinstance(x.value, ast.Name) and x.value.id == "self"}
+                    if any(isinstance(x, ast.Attribute) and x.attr == "__dict__" for x in ast.walk(rp.node)):
+                        shown |= stored
+                missing = sorted(stored - shown)
+                if missing:
+                    verdict = False
+                    why = (f"{m.qualname} compares refinements by their printed form, and {c.name}'s printed form leaves out {missing}: two "
+                           f"{c.name} refinements that differ only there are equal, the typing runtime hands back the first Annotated type for the "
+                           f"second field, and that field is generated and validated against the wrong refinement")
+                    break
+                continue
+            used = {x.attr for x in ast.walk(m.node) if isinstance(x, ast.Attribute) and isinstance(x.value, ast.Name) and x.value.id in ("self", "other")}
+            missing = sorted(stored - used)
+            if missing and m is eq:
+                verdict = False
+                why = f"{m.qualname} ignores {missing}: refinements that differ only there are equal and are merged by the typing runtime"
+                break
+            if missing:
+                verdict, why = (None if verdict is True else verdict), f"{m.qualname} is not followed"
+        ctx.ob("C02.R8", eq or hs, (eq or hs).node, construct, verdict, why)
+    ctx.floor("C02.R8", n, 8, "refinement classes")
+
+
 def run(ctx: Ctx) -> None:
+    ctx.rule("C02.R8", "refinements differing in a parameter never compare equal (Annotated types are merged on equal metadata)")
+    rule_r8(ctx)
     ctx.rule("C02.R7", "list refinements create every element through the callback as a value of the declared element type (one level unwrapped)")
     ctx.floor("C02.R7", list_refinement_rule(ctx, "C02.R7"), 8, "list refinement x element type")
     ctx.rule("C02.R1", "every value generate can produce is accepted by validate, for all parameters (abstract interpretation)")
